@@ -12,7 +12,7 @@
     fuel), run on the encoded table over the default scopes, returns success, and the sorted namespace view of the
     resulting tree (Aml/View.v) IS the namespace [ns] the specification assigns to the program (Aml/Grammar.v). *)
 From Coq Require Import NArith List.
-From FF Require Import Aml.Grammar Aml.WfProgram Aml.ParserFragF0Final Aml.ParserFragF1Final Aml.ParserFragF3Final Aml.ParserFragF4Final Aml.ParserFragF5Final Aml.ParserFragF6Final Aml.ParserFragT2Final.
+From FF Require Import Aml.Grammar Aml.WfProgram Aml.ParserFragF0Final Aml.ParserFragF1Final Aml.ParserFragF3Final Aml.ParserFragF4Final Aml.ParserFragF5Final Aml.ParserFragF6Final Aml.ParserFragF7Final Aml.ParserFragT2Final.
 Import ListNotations.
 Local Open Scope N_scope.
 
@@ -120,3 +120,14 @@ Theorem C11_parse_encode_partial_F6 : forall tables,
   wf_program tables = true -> in_fragment_F6 tables = true -> parse_encode_statement tables.
 Proof. exact parse_encode_F6. Qed.
 Print Assumptions C11_parse_encode_partial_F6.
+
+(** Fragment F7 ([in_fragment_F7], a boolean) = F6 + Name declarations whose value is a package of constants:
+    [Name(SEG, Package(n){e1, ..., em})] where every element is an integer constant (Zero / One / Ones / Byte- / Word- /
+    DWord- / QWordPrefix) or a string, anywhere an item of F6 may stand (top level, Scope body, Device-like body,
+    Method body); fewer elements than [n] are allowed, and the package may be empty.  Productions added to F6:
+    DataRefObject = DefPackage (PackageOp PkgLength NumElements PackageElementList), PackageElement restricted to
+    integer constants and strings.  Not covered: nested packages, Buffers, names as package elements, VarPackage. *)
+Theorem C11_parse_encode_partial_F7 : forall tables,
+  wf_program tables = true -> in_fragment_F7 tables = true -> parse_encode_statement tables.
+Proof. exact parse_encode_F7. Qed.
+Print Assumptions C11_parse_encode_partial_F7.
